@@ -564,7 +564,7 @@ def rule_blocksoft(ctx):
 
 def rules(tier):
     from . import carry, precision, layout, c04, zeroskip, axisrole
-    return [rule_gap, zeroskip.make_rule("R-C11-zeroskip", lambda f: f["d"]["krate"] == "linfa_elasticnet" and f["d"]["name"] in ("coordinate_descent", "block_coordinate_descent"), ("r",), 4, "the residual in the coordinate descents"),
+    return [rule_gap, rule_blocksoft, zeroskip.make_rule("R-C11-zeroskip", lambda f: f["d"]["krate"] == "linfa_elasticnet" and f["d"]["name"] in ("coordinate_descent", "block_coordinate_descent"), ("r",), 4, "the residual in the coordinate descents"),
             zeroskip.make_exact_rule("R-C11-scale", lambda f: f["d"]["krate"] == "linfa_elasticnet" and f["d"]["name"] in ("coordinate_descent", "block_coordinate_descent"), ("r",), 6, "the residual"),
             rule_sweep, axisrole.make_rule("R-C11-axes", "linfa_elasticnet", {"duality_gap_mtl": {"x": ("samples", "features"), "y": ("samples", "tasks"), "w": ("features", "tasks"), "r": ("samples", "tasks")},
                                                                                "duality_gap": {"x": ("samples", "features"), "y": ("samples",), "w": ("features",), "r": ("samples",)}}, 2, "the duality gaps of linfa-elasticnet"),
